@@ -108,7 +108,7 @@ VOCAB = ("ADVNULLANTENNA", "ADVNULLANTENNA  NONE", "TRM59800.00     SCIS", "LEIA
          "5.45", "1.3-2", "4.85/6.05", "5237K12345", "3013601", "00000",
          "ETRF2000", "ITRF2014", "ITRF2020", "ETRF2014", "ETRS89", "WGS84", "NAD83(2011)", "GDA2020", "EPSG:4936",
          "ETRF2000(R08)", "ITRF2008", "EUREF01", "IGS", "RTCM", "STATION ON BATTERY", "UNKNOWN", "0", " ")
-VSTRATS = ("zero", "ones", "signbit", "maxmag", "random", "mixed", "alt")
+VSTRATS = ("zero", "ones", "signbit", "maxmag", "random", "mixed", "alt", "related")
 CSTRATS = ("zero", "one", "max", "random", "small")
 MSTRATS = ("empty", "single", "dense", "random", "nosig", "nocell", "fullcell")
 
@@ -154,7 +154,22 @@ class Builder:
             return 0
         s = self.vstrat
         if s == "mixed":
-            s = self.rng.choice(("zero", "ones", "signbit", "maxmag", "random", "random"))
+            s = self.rng.choice(("zero", "ones", "signbit", "maxmag", "random", "random", "related"))
+        if s == "related":
+            # values that are RELATED to each other or to the structure, which independent random choice never gives:
+            # the same pattern in every field, its complement, the previous field's value (+1), the number of fields
+            # so far, a repeated byte, the bit-reverse of the previous value
+            if not hasattr(self, "_pool"):
+                self._pool = self.rng.getrandbits(64) | 1
+                self._prev = 0
+            mask = (1 << width) - 1
+            k = self.rng.randrange(9)
+            raw = (self._pool & mask, ~self._pool & mask, self._prev & mask, (self._prev + 1) & mask,
+                   len(self.fields) & mask, int.from_bytes(bytes([self._pool & 0xFF]) * 9, "big") & mask,
+                   int(format(self._prev & mask, f"0{width}b")[::-1], 2), (self._pool >> (64 - min(width, 64))) & mask,
+                   (mask + 1 - (self._prev & mask)) & mask)[k]
+            self._prev = raw
+            return raw
         if s == "zero":
             return 0
         if s == "ones":
@@ -291,6 +306,19 @@ class Builder:
             n = self.rng.randint(0, 15) if self.cstrat != "max" else 15
             if self.cstrat == "zero":
                 n = 0
+            self._pending_m = None
+            if self.vstrat == "related" and self.cstrat != "zero":
+                # a layer RELATED to the one before: another (degree, order) with the same number of cosine coefficients
+                lay = self.meta.get("layers", [])
+                if not lay:
+                    n = self.rng.randint(1, 7)
+                else:
+                    pn, pm, pc, _ = lay[-1]
+                    hc = lambda a, b: (a + 1) * (a + 2) // 2 - (a - b) * (a - b + 1) // 2  # noqa: E731
+                    cands = [(a, b) for a in range(1, 17) for b in range(1, a + 1) if (a, b) != (pn, pm) and hc(a, b) == pc]
+                    if cands:
+                        a, b = self.rng.choice(cands)
+                        n, self._pending_m = a - 1, b - 1
             if self.cap is not None:
                 n = min(n, self.cap)
             raw = n
@@ -298,6 +326,8 @@ class Builder:
         elif key == "IDF038":
             n = self.layer["N_1"]
             raw = self.rng.randint(0, n) if self.cstrat not in ("max",) else n
+            if getattr(self, "_pending_m", None) is not None and self._pending_m <= n:
+                raw = self._pending_m
             role = "counter"
         elif key in self.counters:
             raw = self._count_value(width, name)
